@@ -18,8 +18,9 @@
      text   FJSP / JSSP instance files: only the real operations are written (positive
             integer durations of the eligible machines); the reader pads every instance
             of a directory to the largest number of operations found there.  Restored =
-            original with the padded columns dropped and `pad` zero columns appended,
-            for every pad target NOps..P.
+            original with the padded columns dropped and zero columns appended up to
+            `pad` columns, for every pad target NOps..P+1 (more padding than the original
+            had is as harmless as less).
    Next: both copies take the same action, one that the ORIGINAL offers.
    Invariants (the clauses of C19): same instance content up to padding, same mask,
    same done flag at every step, same reward at the end, same forced ("greedy")
@@ -49,7 +50,7 @@ PRepad(i, k) == [i EXCEPT !.P = k,
                           !.pt = [m \in 1..i.M |-> [p \in 1..k |-> IF p <= PNOps(i) THEN i.pt[m][p] ELSE 0]]]
 
 PCodecs(i) == {[kind |-> "same", pad |-> 0]}
-              \cup (IF PIsSched(i) THEN {[kind |-> "text", pad |-> k] : k \in PNOps(i)..i.P} ELSE {})
+              \cup (IF PIsSched(i) THEN {[kind |-> "text", pad |-> k] : k \in PNOps(i)..(i.P + 1)} ELSE {})
 
 PRestored(i, c) == IF c.kind = "text" THEN PRepad(i, c.pad) ELSE i
 
